@@ -103,6 +103,27 @@ func (env *astEnv) eval(e ast.Expr) (astVal, bool) {
 			}
 			return astVal{i: wrapToType(v.i, tv.Type)}, true
 		}
+		// cmp.Compare / cmp.Less on integer operands
+		if sel, ok := x.Fun.(*ast.SelectorExpr); ok && len(x.Args) == 2 {
+			if fn, ok := env.info().Uses[sel.Sel].(*types.Func); ok && fn.Pkg() != nil && fn.Pkg().Path() == "cmp" {
+				a, ok1 := env.eval(x.Args[0])
+				b, ok2 := env.eval(x.Args[1])
+				if ok1 && ok2 && !a.isBool && !b.isBool {
+					switch fn.Name() {
+					case "Compare":
+						switch {
+						case a.i < b.i:
+							return astVal{i: -1}, true
+						case a.i > b.i:
+							return astVal{i: 1}, true
+						}
+						return astVal{i: 0}, true
+					case "Less":
+						return astVal{b: a.i < b.i, isBool: true}, true
+					}
+				}
+			}
+		}
 		// substituted argument forms of library calls (e.g. bytes.Compare(a.Blob, b.Blob) inside a helper)
 		if env.parent != nil && len(env.subst) > 0 {
 			na := make([]ast.Expr, len(x.Args))
